@@ -81,6 +81,17 @@ def main():
         say("%s %s: ok; evidence %s" % (prop, tier, path))
         return 0
     except Broken as e:
+        if ctx.crashes:
+            # a driver died inside the library: that is behaviour of the code under test
+            for c in ctx.crashes:
+                ctx.violation("crash:" + c["reason"][:100], "the driver %s died: %s; library frames: %s"
+                              % (c["driver"], c["reason"], " <- ".join(c["frames"])[:500]), c)
+            ctx.coverage.setdefault("note", "the run ended early: a driver process crashed inside the library")
+            path = write_evidence(ctx)
+            for v in ctx.violations[:5]:
+                say("VIOLATION property=%s replay=%s  # %s" % (prop, v["replay"], v["what"][:300]))
+            say("%s %s: %d violation(s); evidence %s" % (prop, tier, len(ctx.violations), path))
+            return 1
         say("BROKEN %s %s: %s" % (prop, tier, e))
         return 2
     except Exception:
